@@ -44,7 +44,13 @@ class FakeSocket(object):
         net = self.net
         n = self.sent
         self.sent += 1
-        fate = net.fate(n) if net.fate else "ok"
+        if not net.fate:
+            fate = "ok"
+        else:
+            try:
+                fate = net.fate(n, bytes(data))     # fate functions may look at the datagram (retransmissions repeat it)
+            except TypeError:
+                fate = net.fate(n)
         net.datagrams.append((self.peer, bytes(data), fate))
         # replies held back are released by the next transmission
         while self.held:
@@ -98,12 +104,11 @@ class SimNet(object):
                 ready = [s for s in r if s.inbox]
                 if not ready:
                     # nothing will arrive by itself: advance virtual time to the deadline and release late replies
-                    net.clock.now += max(timeout or 0.0, 0.0)
+                    # (real time never stands still: a deadline that has been reached has also been passed)
+                    net.clock.now += max(timeout or 0.0, 0.0) + 1e-6
                     for s in r:
                         while s.held:
                             s.inbox.append(s.held.popleft())
-                    ready = [s for s in r if s.inbox] if (timeout or 0.0) > 0 else []
-                    ready = []
                 return ready, [], []
         self.select_module = _SelectModule
 
